@@ -71,6 +71,7 @@ C_NONE, C_MISSING, C_BOOL, C_INT, C_FLOAT, C_STR, C_BYTES = 0, 1, 2, 3, 4, 5, 6
 C_LIST, C_TUPLE, C_SET, C_FROZENSET, C_DICT, C_MPROXY, C_FUNCTION = 7, 8, 9, 10, 11, 12, 13
 C_UUID, C_DATE, C_DATETIME, C_TIME, C_TIMEDELTA, C_TIMEZONE, C_PATH, C_POSIXPATH = 20, 21, 22, 23, 24, 25, 26, 27
 C_COL, C_SCOL, C_ICOL, C_NAMED, C_HASLEN, C_OBJ1, C_OBJ2 = 28, 29, 30, 31, 32, 33, 34
+C_PRETEND = 36       # an object of an unrelated class whose `__class__` reports `Missing` (isinstance(x, Missing) is True)
 C_COL2 = 35          # a second enum whose __name__ is also "Col" (another module's class of the same name)
 C_INNER, C_SUB, C_BOX, C_BOX_INT, C_BOX_STR, C_BOX_INNER, C_PAIR, C_PAIR_INT_STR, C_NODE, C_BOX_ANY = 40, 41, 42, 43, 44, 45, 46, 47, 48, 49
 C_INNER2, C_BOX_COL, C_BOX_COL2, C_BOX_INNER2 = 50, 51, 52, 53   # twin `Inner`; Box specialised with each twin
@@ -138,6 +139,20 @@ class Universe:
             def __hash__(self):
                 return hash(("Obj2", self.k))
 
+        class Pretender:
+            def __init__(self, k: int) -> None:
+                self.k = k
+
+            @property
+            def __class__(self):      # what Mock(spec=Missing) / transparent proxies do
+                return Missing
+
+            def __eq__(self, other):
+                return type(other) is type(self) and other.k == self.k
+
+            def __hash__(self):
+                return hash(("Pretender", self.k))
+
         def body(ns, ann, defaults=None):
             ns["__module__"] = NS_MODULE
             ns["__annotations__"] = ann
@@ -170,7 +185,7 @@ class Universe:
             C_INNER: Inner, C_SUB: Sub, C_BOX: Box, C_BOX_INT: Box[int], C_BOX_STR: Box[str],
             C_BOX_INNER: Box[Inner], C_PAIR: Pair, C_PAIR_INT_STR: Pair[int, str], C_NODE: Node,
             C_BOX_ANY: Box[typing.Any],
-            C_COL2: Col2, C_INNER2: Inner2, C_BOX_COL: Box[Col], C_BOX_COL2: Box[Col2], C_BOX_INNER2: Box[Inner2],
+            C_PRETEND: Pretender, C_COL2: Col2, C_INNER2: Inner2, C_BOX_COL: Box[Col], C_BOX_COL2: Box[Col2], C_BOX_INNER2: Box[Inner2],
         }
         self.ids = {c: i for i, c in self.cls.items()}
         self.funcs = [_f0, _f1, _f2, _f3]
@@ -565,7 +580,7 @@ def obj_key(x, cid):  # noqa: PLR0911
             return int(x.utcoffset(None).total_seconds() // 3600)
         if cid in (C_PATH, C_POSIXPATH):
             return int(x.name[1:])
-        if cid in (C_OBJ1, C_OBJ2):
+        if cid in (C_OBJ1, C_OBJ2, C_PRETEND):
             return x.k
     except Exception:  # noqa: BLE001
         return None
